@@ -17,6 +17,7 @@
 """Utilities for applying calibration solutions to visibilities and weights."""
 
 import logging
+import uuid
 
 import dask.array as da
 import numba
@@ -610,7 +611,10 @@ def calc_correction(chunks, cache, corrprods, cal_products, data_freqs,
         return final_cal_products, None
     params = CorrectionParams(inputs, input1_index, input2_index,
                               corrections, channel_maps)
-    name = 'corrections[{}]'.format(','.join(sorted(final_cal_products)))
+    # The products name the array for humans, while the token makes the name unique to this call:
+    # the corrections also depend on the data set (inputs, loaded dumps and channels, solutions),
+    # and dask merges tasks with equal names when arrays of several data sets are computed together.
+    name = 'corrections[{}]-{}'.format(','.join(sorted(final_cal_products)), uuid.uuid4().hex)
     return (final_cal_products,
             da.map_blocks(_correction_block, dtype=np.complex64, chunks=chunks,
                           name=name, params=params))
